@@ -363,7 +363,7 @@ def subs(tier: str):
         Sub("legacy-construction-order", check_legacy_sequence, "hypothesis",
             strategy=lambda: st.fixed_dictionaries({"seq": st.lists(st.tuples(st.sampled_from(MODES), st.integers(1, 50)).map(list), min_size=2, max_size=6),
                                                     "resize": st.lists(st.integers(1, 30), max_size=3), "touch": st.sampled_from([None, 0, 1, 2])}),
-            examples=40 if q else 3000),
-        Sub("sequences", check_seq, "hypothesis", strategy=_seq, examples=120 if q else 15000),
-        Sub("unknown", check_unknown, "hypothesis", strategy=_unknown, examples=80 if q else 8000),
+            examples=80 if q else 3000),
+        Sub("sequences", check_seq, "hypothesis", strategy=_seq, examples=250 if q else 15000),
+        Sub("unknown", check_unknown, "hypothesis", strategy=_unknown, examples=150 if q else 8000),
     ]
